@@ -24,7 +24,11 @@ def main():
         return 0
     with open(sys.argv[2]) as fh:
         shard = json.load(fh)
+    from vlib import budget
+    budget.start(shard.pop('_soft', None))
     res = mod.run_shard(shard)
+    if budget.STATE['boxed'] and isinstance(res, dict):
+        res.setdefault('counters', {})['time_boxed_shards'] = 1
     with open(sys.argv[3], 'w') as fh:
         json.dump(res, fh, default=str)
     return 0
